@@ -29,6 +29,19 @@ Rank2(x) == [t \in 1..Len(x) |-> 2 * Cardinality({s \in 1..Len(x) : x[s] < x[t]}
 GaussMIDefined(x, y) == /\ Var(x) > 0 /\ Var(y) > 0
                         /\ Var(x) * Var(y) <= 4096 /\ Var(x) * Var(y) - Cov(x, y) * Cov(x, y) >= 1
 GaussMI6(x, y) == (Ln6(Var(x) * Var(y)) - Ln6(Var(x) * Var(y) - Cov(x, y) * Cov(x, y))) \div 2
+\* ---- partial correlation of three series (given the third): -P_ab / sqrt(P_aa P_bb), P the inverse of
+\* the covariance matrix, i.e. with the cofactors K of the (integer) matrix of Cov values:
+\*   r_ab.c ^ 2 = K_ab^2 / (K_aa K_bb),   sign = -sign(K_ab)          (K_ab = -(C_ab C_cc - C_ac C_bc))
+Third3(a, b) == CHOOSE c \in 1..3 : c # a /\ c # b
+CofDiag(C, a) == LET p == CHOOSE q \in (1..3) \X (1..3) : q[1] < q[2] /\ q[1] # a /\ q[2] # a
+                 IN C[p[1]][p[1]] * C[p[2]][p[2]] - C[p[1]][p[2]] * C[p[1]][p[2]]
+CofOff(C, a, b) == LET c == Third3(a, b) IN -(C[a][b] * C[c][c] - C[a][c] * C[b][c])
+Det3(C) == C[1][1] * CofDiag(C, 1) + C[1][2] * CofOff(C, 1, 2) + C[1][3] * CofOff(C, 1, 3)
+PartialSq6(C, a, b) == FxDiv(CofOff(C, a, b) * CofOff(C, a, b), CofDiag(C, a) * CofDiag(C, b), 1000000)
+PartialDefined(C, a, b) == /\ CofDiag(C, a) > 0 /\ CofDiag(C, b) > 0 /\ Det3(C) # 0
+                           /\ CofDiag(C, a) * CofDiag(C, b) < 200000000
+                           /\ Abs(CofOff(C, a, b)) < 46000
+
 \* ---- surrogate test matrices (Surrogates.test_pearson_correlation / test_mutual_information) ----
 \* entry (i, j), i # j: original series i against surrogate series j; the diagonal is left at 0
 MeanProduct6(x, y) == FxDiv(SumN(LAMBDA t : x[t] * y[t], 1, Len(x)), Len(x), 1000000)
